@@ -21,7 +21,7 @@ impl Property for C11 {
          oracle = objective evaluated exactly on ALL 2^n assignments + multilinear reduction (unique representation); non-trivial = n>=3 and (a monomial with a repeated id or a cancelling pair); distinct = sha256(instance, mode)"
     }
     fn required_labels(&self) -> Vec<String> {
-        ["x^2", "cancel", "deg>2-collapses-to-pair", "refusal=constraint", "refusal=maximize", "refusal=non-binary", "refusal=qubo-3-distinct", "format=pubo", "format=qubo", "regime=general", "regime=dyadic", "removed-constraint-present"].iter().map(|s| s.to_string()).collect()
+        ["x^2", "cancel", "deg>2-collapses-to-pair", "refusal=constraint", "refusal=maximize", "refusal=non-binary", "refusal=qubo-3-distinct", "format=pubo", "format=qubo", "regime=general", "regime=dyadic", "removed-constraint-present", "objective-absent", "unused-non-binary-variable"].iter().map(|s| s.to_string()).collect()
     }
     fn cases(&self, tier: Tier) -> usize {
         match tier {
@@ -107,6 +107,21 @@ impl Property for C11 {
             inst.decision_variables.push(v);
         }
         inst.objective = Some(obj.clone());
+        let absent_objective = terms.is_empty() && refusal == 0 && t.coin();
+        if absent_objective {
+            // an absent objective is the zero function
+            inst.objective = None;
+            ctx.label("objective-absent");
+        }
+        // variables that are not binary but are not used by the objective do not prevent the export
+        if t.p(64) {
+            let mut v = v1::DecisionVariable::default();
+            v.id = next + 5;
+            v.kind = if t.coin() { KIND_CONTINUOUS } else { KIND_INTEGER };
+            v.bound = Some(crate::mk::bound(-3.0, 3.0));
+            inst.decision_variables.push(v);
+            ctx.label("unused-non-binary-variable");
+        }
         // removed constraints do not prevent the export
         if t.p(64) {
             let mut c = v1::Constraint::default();
